@@ -1,5 +1,7 @@
 import WhVerif.Util.Proto
 import WhVerif.Model.C13
+import WhVerif.Model.C13Bridge
+import WhVerif.Model.C04Json
 namespace WhVerif.Driver.C13
 open Lean WhVerif.Proto WhVerif.C13
 
@@ -48,6 +50,16 @@ def exceptJson : Except Err (List Record) → Json
   | .ok v => Json.mkObj [("ok", ofList recordJson v)]
   | .error e => Json.mkObj [("err", errJson e)]
 
+def hline? (j : Json) : Option C04.HLine := do
+  let id := match j.getObjVal? "id" with
+    | .ok (Json.str s) => some s
+    | _ => none
+  some ⟨← getStr? j "key", id, (getStr? j "number").getD "", (getStr? j "type").getD "", (getStr? j "text").getD ""⟩
+
+def ofHLine (l : C04.HLine) : Json :=
+  Json.mkObj [("key", Json.str l.key), ("id", match l.id with | some s => Json.str s | none => Json.null),
+    ("text", Json.str l.text)]
+
 /-- `c13.unphase {records}` → `{spec: [...], fix: {ok|err}, cur: {ok|err}}` -/
 def handle (op : String) (j : Json) : Option Json :=
   if op == "c13.unphase" then
@@ -55,6 +67,19 @@ def handle (op : String) (j : Json) : Option Json :=
     | some v => some (Json.mkObj [("spec", ofList recordJson (unphase v)),
                                   ("fix", exceptJson (unphaseFix v)),
                                   ("cur", exceptJson (unphaseCur v))])
+    | none => some badInput
+  else if op == "c13.header" then
+    -- {header} -> the header after one and after two applications, as coded and after fixes/F61.patch
+    match (getList? j "header").bind (·.mapM hline?) with
+    | some h => some (Json.mkObj [("cur", ofList ofHLine (unphaseHeader h)),
+                                  ("cur2", ofList ofHLine (unphaseHeader (unphaseHeader h))),
+                                  ("fix", ofList ofHLine (unphaseHeaderFix h))])
+    | none => some badInput
+  else if op == "c13.of_c04" then
+    -- records in the JSON of the C04 model -> the same records in this model, and unphased
+    match (getList? j "records").bind (·.mapM fun r => (getObj? r "record").bind C04.Json.record?) with
+    | some rs => some (Json.mkObj [("plain", ofList recordJson (rs.map ofC04)),
+                                   ("unphased", ofList recordJson (unphase (rs.map ofC04)))])
     | none => some badInput
   else none
 end WhVerif.Driver.C13
